@@ -610,6 +610,23 @@ def _clone(kids):
     return out
 
 
+ALT_TYPE = {'int32': 'int64', 'int64': 'int32', 'uint32': 'uint64', 'uint64': 'uint32', 'float32': 'float64', 'float64': 'float32', 'bool': 'int32', 'string': 'int64'}
+
+
+def alt_types(base, name):
+    """The same column names, nesting and repetition with every leaf of a
+    different physical type (C13: another record type in the same process)."""
+    def swap(kids):
+        for k in kids:
+            if k.kids is not None:
+                swap(k.kids)
+            elif k.excl is None:
+                k.typ = ALT_TYPE[k.typ]
+    kids = _clone(base.kids)
+    swap(kids)
+    return Program(name, kids)
+
+
 def _mark_paths(kids, prefix):
     for k in kids:
         k.base_path = prefix + [k.name]
